@@ -361,6 +361,50 @@ def run(ctx: Ctx) -> None:
     ctx.cov["real_file_runs_judged_by_tlc"] = len(obs)
     ctx.cov["traces_validated_against_impl"] = n_replayed + len(obs) - n_bad
 
+    # ---------------------------------------------------------------- 3b. the same function called from several threads
+    # at once (fillers in threads, check() next to a writer, ...): every call must still digest its own file
+    import threading
+    import sedpack.io.utils as U
+    n_thr = 0
+    with tempfile.TemporaryDirectory(prefix="verif_c16t_") as td:
+        files = []
+        for k in range(6):
+            size = (k % 3 + 2) * realcap + 17 * k + 1
+            data = random.Random(ctx.seed * 91 + k).randbytes(size)
+            pth = Path(td) / f"t{k}.bin"
+            pth.write_bytes(data)
+            algs = [["sha256"], ["md5", "xxh64"], ["sha1", "sha256", "md5"]][k % 3]
+            files.append((pth, algs, tuple(_digest_of(a, data) for a in algs)))
+        wrong, errs = [], []
+        barrier = threading.Barrier(len(files))
+
+        def worker(pth, algs, want):
+            try:
+                for _ in range(8 if q else 40):
+                    barrier.wait(timeout=120)
+                    got = tuple(U.hash_checksums(pth, tuple(algs)))
+                    if got != want:
+                        wrong.append((pth.name, algs, got, want))
+            except Exception as exc:  # pylint: disable=broad-except
+                errs.append(repr(exc))
+                barrier.abort()
+
+        ths = [threading.Thread(target=worker, args=f, daemon=True) for f in files]
+        for t in ths:
+            t.start()
+        for t in ths:
+            t.join(600)
+        n_thr = len(files) * (8 if q else 40)
+        if errs and not wrong:
+            raise MachineryError(f"threaded hashing scenario failed: {errs[:2]}")
+        if wrong:
+            name, algs, got, want = wrong[0]
+            ctx.violation("C16|kind=wrong-digest|concurrent=yes",
+                          f"hash_checksums called from {len(files)} threads at once returned {got[:2]} for {name} "
+                          f"({algs}); the digests of that file are {want[:2]} ({len(wrong)} wrong results)",
+                          {"mode": "threads", "n_wrong": len(wrong), "algs": algs})
+    ctx.cov["concurrent_hash_calls"] = n_thr
+
     # ---------------------------------------------------------------- 4. end to end: checksums in real metadata
     n_meta = _metadata_checksums(ctx, q)
     ctx.cov["metadata_checksums_verified_with_external_tools"] = n_meta
